@@ -300,6 +300,8 @@ class Flow:
         """'path' (sanitised path), 'tmp' (temp file object created in a sanitised directory) or None."""
         if e is None or depth > 12:
             return None
+        if isinstance(e, _Elem):
+            return self.elem_kind(scope, e.it, depth + 1)
         if isinstance(e, ast.Name):
             g = self._comp_bindings(scope.fi).get(id(e))
             if g is not None:
@@ -375,7 +377,7 @@ class Flow:
                     # closure-capturing default (`path=path`), evaluated in the enclosing scope
                     return self.kind(scope.outer, default, depth + 1)
                 if scope.lam is not None:
-                    return None
+                    return self._lambda_param_kind(scope, name, depth)
                 return self._param_kind(scope.fi, name, depth)
             if not writes:
                 if scope.outer is not None:
@@ -609,7 +611,8 @@ class Flow:
         arguments -- functools.partial(self.m, a), loop.run_in_executor(None, self.m, a), asyncio.to_thread(self.m, a),
         call_soon(self.m, a): the positional arguments that follow the callable are its arguments -- is the same
         fact as the call self.m(a); it is returned as a synthetic Call whose `_site` is the reference and whose
-        `_via` is the enclosing call."""
+        `_via` is the enclosing call.  A callable handed to an element-wise applicator (map, filter, sorted(key=) ...)
+        is the same fact as a call with an *element* of the iterable(s): see _handed_over."""
         out = []
         for fi in self.funcs:
             ref = self._ref_test(fi, meth_name, of)
@@ -623,11 +626,89 @@ class Flow:
                         out.append((scope, n))
                     for i, a in enumerate(n.args):
                         if ref(a):
-                            partial = (chain(n.func) or "").split(".")[-1] == "partial"
-                            synth = ast.Call(func=a, args=list(n.args[i + 1:]), keywords=list(n.keywords) if partial else [])
-                            ast.copy_location(synth, n)
-                            synth._site, synth._via = a, n
-                            out.append((scope, synth))
+                            for args, kws in _handed_over(n, i):
+                                synth = ast.Call(func=a, args=args, keywords=kws)
+                                ast.copy_location(synth, n)
+                                synth._site, synth._via = a, n
+                                out.append((scope, synth))
+        return out
+
+    def keyword_sites(self, fi):
+        """([(scope, synthetic call)], [(scope, reference)]): the references to fi that are handed over *by keyword*
+        and whose invocation arguments are known (sorted(it, key=f), x.sort(key=f), min/max(..., key=f),
+        Thread(target=f, args=(a, b)) ...), as synthetic calls like those of call_sites, and the remaining bare
+        references (the callable escapes to where the rule does not see its arguments)."""
+        known, unknown = [], []
+        for scope, r in self.bare_refs_of(fi):
+            bound = None
+            for n in _scope_nodes(scope):
+                if isinstance(n, ast.Call):
+                    kw = next((k for k in n.keywords if k.value is r), None)
+                    if kw is not None:
+                        bound = _handed_over_kw(n, kw)
+                        via = n
+                        break
+            if bound is None:
+                aliased = self._alias_sites(scope, r)
+                if aliased is None:
+                    unknown.append((scope, r))
+                else:
+                    known.extend(aliased)
+                continue
+            for args, kws in bound:
+                synth = ast.Call(func=r, args=args, keywords=kws)
+                ast.copy_location(synth, via)
+                synth._site, synth._via = r, via
+                known.append((scope, synth))
+        return known, unknown
+
+    def _alias_sites(self, scope, value):
+        """`f = <value>` (a function reference or a lambda bound to a single-assignment local): the invocations of the
+        callable are the uses of f.  [(scope, real or synthetic call)] when every load of f in the function is a call
+        or a handing over with known arguments; None when there is no such binding or f escapes (is stored, returned,
+        used inside a nested function, handed over by an unknown convention)."""
+        if scope.lam is not None:
+            return None
+        name = None
+        for n in _scope_nodes(scope):
+            if isinstance(n, ast.Assign) and n.value is value and len(n.targets) == 1 and isinstance(n.targets[0], ast.Name):
+                name = n.targets[0].id
+                break
+        if name is None or scope.param_default(name)[0] or len(writes_to_name(scope.node, name)) != 1:
+            return None
+        nodes = _scope_nodes(scope)
+        loads = [x for x in ast.walk(scope.node) if isinstance(x, ast.Name) and x.id == name and isinstance(x.ctx, ast.Load)]
+        own = {id(x) for x in nodes}
+        if any(id(x) not in own for x in loads):
+            return None
+        out, seen = [], set()
+        for n in nodes:
+            if not isinstance(n, ast.Call):
+                continue
+            if isinstance(n.func, ast.Name) and n.func.id == name:
+                seen.add(id(n.func))
+                out.append((scope, n))
+            for i, a in enumerate(n.args):
+                if isinstance(a, ast.Name) and a.id == name:
+                    seen.add(id(a))
+                    for args, kws in _handed_over(n, i):
+                        synth = ast.Call(func=a, args=args, keywords=kws)
+                        ast.copy_location(synth, n)
+                        synth._site, synth._via = a, n
+                        out.append((scope, synth))
+            for k in n.keywords:
+                if isinstance(k.value, ast.Name) and k.value.id == name:
+                    bound = _handed_over_kw(n, k)
+                    if bound is None:
+                        return None
+                    seen.add(id(k.value))
+                    for args, kws in bound:
+                        synth = ast.Call(func=k.value, args=args, keywords=kws)
+                        ast.copy_location(synth, n)
+                        synth._site, synth._via = k.value, n
+                        out.append((scope, synth))
+        if any(id(x) not in seen for x in loads):
+            return None
         return out
 
     def bare_refs(self, meth_name, of=None):
@@ -656,20 +737,149 @@ class Flow:
         self._param[key] = None
         pn = params(fi)
         sites = self.call_sites_of(fi)
+        by_kw, escaping = self.keyword_sites(fi)
+        sites = sites + by_kw
         kinds = set()
+        if escaping:
+            # the function is also referenced as a value whose invocation the rule does not see (stored, returned,
+            # handed over by an unknown keyword): the parameter may be bound to anything there
+            kinds.add(None)
         for scope, call in sites:
-            arg = None
-            if any(isinstance(a, ast.Starred) for a in call.args) or any(k.arg is None for k in call.keywords):
-                kinds.add(None)
-                continue
-            if name in pn and pn.index(name) < len(call.args):
-                arg = call.args[pn.index(name)]
-            else:
-                arg = next((k.value for k in call.keywords if k.arg == name), None)
-            kinds.add(self.kind(scope, arg, depth + 1))
+            kinds.add(_bound_kind(self, scope, call, pn, name, depth))
         res = kinds.pop() if len(kinds) == 1 and sites else None
         self._param[key] = res
         return res
+
+    def _lambda_param_kind(self, scope, name, depth):
+        """kind of a parameter (without default) of a lambda: the lambda is created inside a call that invokes it
+        with known arguments (map(lambda e: ..., it), sorted(it, key=lambda e: ...), partial(lambda p: ..., path),
+        run_in_executor(None, lambda p: ..., path)) or is called on the spot.  A lambda that is stored, returned or
+        handed to anything else has unknown arguments (None)."""
+        lam, outer = scope.lam, scope.outer
+        if outer is None:
+            return None
+        a = lam.args
+        if a.vararg is not None or a.kwarg is not None:
+            return None
+        pn = [p.arg for p in a.posonlyargs + a.args]
+        for n in _scope_nodes(outer):
+            if not isinstance(n, ast.Call):
+                continue
+            bound = None
+            if n.func is lam:
+                bound = [(list(n.args), list(n.keywords))]
+            elif any(x is lam for x in n.args):
+                bound = _handed_over(n, next(i for i, x in enumerate(n.args) if x is lam))
+            else:
+                kw = next((k for k in n.keywords if k.value is lam), None)
+                if kw is not None:
+                    bound = _handed_over_kw(n, kw)
+                    if bound is None:
+                        return None
+            if bound is None:
+                continue
+            kinds = set()
+            for args, kws in bound:
+                synth = ast.Call(func=lam, args=args, keywords=kws)
+                kinds.add(_bound_kind(self, outer, synth, pn, name, depth))
+            return kinds.pop() if len(kinds) == 1 else None
+        aliased = self._alias_sites(outer, lam)
+        if aliased:
+            kinds = {_bound_kind(self, sc, call, pn, name, depth) for sc, call in aliased}
+            return kinds.pop() if len(kinds) == 1 else None
+        return None
+
+
+class _Elem(ast.expr):
+    """Synthetic argument expression: *an element of* the iterable expression `it` (what map / filter / sorted(key=)
+    hand to their callable).  Only ever evaluated by Flow.kind."""
+    _fields = ("it",)
+
+
+def _bound_kind(fl, scope, call, pn, name, depth):
+    """kind of the value the (real or synthetic) call binds to the parameter `name` of a callee with the positional
+    parameters pn"""
+    if any(isinstance(a, ast.Starred) for a in call.args) or any(k.arg is None for k in call.keywords):
+        return None
+    if name in pn and pn.index(name) < len(call.args):
+        arg = call.args[pn.index(name)]
+    else:
+        arg = next((k.value for k in call.keywords if k.arg == name), None)
+    return fl.kind(scope, arg, depth + 1)
+
+
+# Callables that apply their first argument to the elements of the iterables that follow it, one element of each
+# iterable per positional parameter: builtin map / filter, itertools.filterfalse / takewhile / dropwhile, and the
+# `map`-like methods of executors and pools (Executor.map(f, *iterables), Pool.map / imap / imap_unordered /
+# map_async(f, iterable[, chunksize]) -- a chunk size is an int, iterating over which yields nothing sanitised).
+_ELEMENTWISE = {"map": None, "imap": None, "imap_unordered": None, "map_async": None,
+                "filter": 1, "filterfalse": 1, "takewhile": 1, "dropwhile": 1}
+# f(*element): the element's components are not tracked -> unknown arguments
+_STARWISE = {"starmap", "starmap_async"}
+# folds: f(accumulator, element) -- the accumulator is whatever f returned -> unknown arguments
+_FOLDS = {"reduce", "accumulate"}
+
+
+def _last_name(call):
+    f = call.func
+    if isinstance(f, ast.Attribute):
+        return f.attr
+    if isinstance(f, ast.Name):
+        return f.id
+    return None
+
+
+def _handed_over(call, i):
+    """[(positional arguments, keywords)] with which the callable that is the i-th positional argument of `call` is
+    invoked.  Element-wise applicators invoke it with one element of each iterable (synthetic _Elem arguments);
+    starmap / reduce with arguments the rule does not track (a Starred argument, which binds nothing); everything
+    else follows the convention of functools.partial / run_in_executor / to_thread / call_soon / call_later /
+    submit: the positional arguments after the callable are its arguments (and, for partial, the keywords)."""
+    name = _last_name(call)
+    rest = list(call.args[i + 1:])
+    unknown = [([ast.Starred(value=ast.Constant(value=None), ctx=ast.Load())], [])]
+    if i == 0 and name in _ELEMENTWISE and rest and not any(isinstance(x, ast.Starred) for x in rest):
+        n_it = _ELEMENTWISE[name]
+        if n_it is not None and len(rest) != n_it:
+            return unknown
+        return [([_Elem(it=x) for x in rest], [])]
+    if name in _STARWISE or name in _FOLDS:
+        return unknown
+    if i == 1 and name == "groupby" and not rest:
+        return [([_Elem(it=call.args[0])], [])]
+    return [(rest, list(call.keywords) if name == "partial" else [])]
+
+
+def _handed_over_kw(call, kw):
+    """same for a callable handed over as the keyword argument `kw` of `call`; None: unknown convention"""
+    name = _last_name(call)
+    pos = list(call.args)
+    if any(isinstance(x, ast.Starred) for x in pos):
+        return None
+    if kw.arg == "key":
+        if name in ("sorted", "groupby") and len(pos) == 1:
+            return [([_Elem(it=pos[0])], [])]
+        if name in ("min", "max"):
+            if len(pos) == 1:
+                return [([_Elem(it=pos[0])], [])]
+            return [([x], []) for x in pos] if pos else None
+        if name == "sort" and not pos and isinstance(call.func, ast.Attribute):
+            return [([_Elem(it=call.func.value)], [])]
+        if name in ("nlargest", "nsmallest") and len(pos) == 2:
+            return [([_Elem(it=pos[1])], [])]
+        return None
+    if kw.arg == "target":
+        # threading.Thread(target=f, args=(a, b), kwargs={...}) / multiprocessing.Process
+        a = next((k.value for k in call.keywords if k.arg == "args"), None)
+        k2 = next((k.value for k in call.keywords if k.arg == "kwargs"), None)
+        if k2 is not None:
+            return None
+        if a is None:
+            return [([], [])]
+        if isinstance(a, (ast.Tuple, ast.List)) and not any(isinstance(x, ast.Starred) for x in a.elts):
+            return [(list(a.elts), [])]
+        return None
+    return None
 
 
 def _self_name(fi):
